@@ -127,6 +127,10 @@ def generate(rng, tier, ctx):
             v = rng.choice([0, 1, P - 1, rng.scalar(0.5) % P])
             cases.append(('k_run %s.fe_get_b32 a.n=%s / r:32' % (CS, h(fel(v))), ('k_run', CS + '.fe_get_b32')))
             cases.append(('k_run %s.scalar_mul a.d=%s b.d=%s / r.d:%d' % (CS, h(sc()), h(sc()), ns), ('k_run', CS + '.scalar_mul')))
+    # a magnitude-32 extreme on which the 10x26 zero test gives a FALSE POSITIVE (found by Props/C05_select; known finding F4):
+    # value = 2^58 (mod p), the specified answer is 0
+    cex = [(1 << 26) - 977, (1 << 32) - 65, 0, 0, 0, 0, 0, 0, 0, 0x400000]
+    cases.append(('k_run ct32.fe_normalizes_to_zero r.n=%s / ret' % h(cex), ('k_run', 'ct32.fe_normalizes_to_zero.extreme'), '0'))
     # ---- the emulated 128-bit integer (int128_struct): edge patterns on 32-bit halves (carries between the partial products)
     def half_edge():
         hi, lo = [rng.choice([0, 1, 2, 0x7FFFFFFF, 0x80000000, 0xFFFFFFFE, 0xFFFFFFFF, rng.r.getrandbits(32)]) for _ in range(2)]
